@@ -101,10 +101,44 @@ def run(ctx):
             out.append(probs)
         return out
 
+    fl = {"armed": False, "how": None}
+
     def callback():
         cb, form = as_callback(experiment, rng)
         ctx.bucket("callback_is_" + form)
+        if rng.random() < 0.12:
+            # an experiment that fails the first time it is run (raises, or returns unusable data): process() fails, and
+            # is then called again on the same object with the experiment working
+            fl["armed"], fl["how"] = True, str(rng.choice(["raises", "too_few_results", "not_dual_rail", "empty_results"]))
+
+            def flaky(circuits, *a, **k):
+                if not fl["armed"]:
+                    return cb(circuits, *a, **k)
+                if fl["how"] == "raises":
+                    raise RuntimeError("laboratory on fire")
+                good = cb(circuits, *a, **k)
+                if fl["how"] == "too_few_results":
+                    return good[:-1]
+                if fl["how"] == "empty_results":
+                    return [{} for _ in good]
+                bad = [dict(g) for g in good]
+                st0 = next(iter(bad[0]))
+                bad[0] = {State([1] * len(st0)): 1.0}
+                return bad
+            return flaky
         return cb
+
+    def attempt(fn):
+        """Runs fn(); if the experiment is armed to fail, the failing first run comes first."""
+        if fl["armed"]:
+            try:
+                fn()
+                ctx.count("first_run_with_unusable_data_did_not_fail:" + str(fl["how"]))
+            except Exception as e_:  # noqa: BLE001
+                ctx.bucket("process_called_again_after_failed_run")
+                ctx.count("failed_first_run:" + str(fl["how"]) + ":" + type(e_).__name__)
+            fl["armed"] = False
+        return fn()
 
     earlier: list = []
     while not ctx.out_of_time():
@@ -155,7 +189,7 @@ def run(ctx):
             choi_ref = tomo.choi_from_unitary(v)
             if method == "LI":
                 pt = objs.setdefault("pt", tomo.LIProcessTomography(n, base, callback()))
-                choi = pt.process()
+                choi = attempt(pt.process)
                 ctx.count("li_postconditions")
                 if complex_nonsym: ctx.bucket("li_complex_nonsymmetric")
                 if n == 2: ctx.bucket("two_qubit_li")
@@ -170,7 +204,7 @@ def run(ctx):
                                   mechanism="li_fidelity", monitor="LIProcessTomography.process post-condition")
             elif method == "MLE":
                 pt = objs.setdefault("pt", tomo.MLEProcessTomography(n, base, callback()))
-                choi = pt.process()
+                choi = attempt(pt.process)
                 ctx.count("mle_postconditions")
                 if complex_nonsym: ctx.bucket("mle_complex_nonsymmetric")
                 herm = (choi + choi.conj().T) / 2
@@ -197,7 +231,7 @@ def run(ctx):
                     target = target * np.exp(1j * rng.uniform(0, 6.28))      # a global phase is irrelevant
                 case["target"] = kind
                 gf = objs.setdefault("gf", tomo.GateFidelity(n, base, callback()))
-                f = gf.process(target)
+                f = attempt(lambda: gf.process(target))
                 ctx.count("gate_fidelity_postconditions")
                 want = (abs(np.trace(target.conj().T @ v)) ** 2 + d) / (d * (d + 1))
                 ctx.bucket("gate_fidelity_same_target" if kind == "same" else "gate_fidelity_other_target")
